@@ -11,7 +11,7 @@ theorem F_mono {env : Env} {R S : Rel} (h : ∀ a b, R a b → S a b) : ∀ a b,
   unfold F at *
   rcases hF with h1 | h1 | h1 | h1 | h1 | h1 | ⟨a', b', e1, e2, r⟩ | ⟨fs1, fs2, e1, e2, r⟩ | ⟨fs1, fs2, e1, e2, r⟩ |
     ⟨a1, r1, m1, a2, r2, m2, e1, e2, e3, ra, rr⟩ | ⟨ms1, ms2, e1, e2, r⟩ | ⟨x, d, e1, e2, r⟩ | ⟨x, d, e1, e2, e3, r⟩ |
-    ⟨args, t, e1, e2, r⟩ | ⟨args, t, e1, e2, r⟩
+    ⟨args, t, e1, e2, r⟩ | ⟨args, t, e1, e2, e3, r⟩
   · exact Or.inl h1
   · exact Or.inr (Or.inl h1)
   · exact Or.inr (Or.inr (Or.inl h1))
@@ -41,7 +41,7 @@ theorem F_mono {env : Env} {R S : Rel} (h : ∀ a b, R a b → S a b) : ∀ a b,
   · exact Or.inr (Or.inr (Or.inr (Or.inr (Or.inr (Or.inr (Or.inr (Or.inr (Or.inr (Or.inr (Or.inr (Or.inr (Or.inr
       (Or.inl ⟨args, t, e1, e2, h _ _ r⟩)))))))))))))
   · exact Or.inr (Or.inr (Or.inr (Or.inr (Or.inr (Or.inr (Or.inr (Or.inr (Or.inr (Or.inr (Or.inr (Or.inr (Or.inr
-      (Or.inr ⟨args, t, e1, e2, h _ _ r⟩)))))))))))))
+      (Or.inr ⟨args, t, e1, e2, e3, h _ _ r⟩)))))))))))))
 
 /-- `Sub` is a fixed point: it can be unfolded one rule at a time -/
 theorem sub_unfold {env : Env} {a b : Ty} (h : Sub env a b) : F env (Sub env) a b := by
@@ -91,9 +91,10 @@ theorem F.varR (a : Ty) (x : String) (d : Ty) (hn : isName a = false) (hf : recF
 theorem F.clsL (args : Tys) (t b : Ty) (hn : isName b = false) (h : R t b) : F env R (.cls args t) b :=
   Or.inr (Or.inr (Or.inr (Or.inr (Or.inr (Or.inr (Or.inr (Or.inr (Or.inr (Or.inr (Or.inr (Or.inr (Or.inr
     (Or.inl ⟨args, t, rfl, hn, h⟩)))))))))))))
-theorem F.clsR (a : Ty) (args : Tys) (t : Ty) (hn : isName a = false) (h : R a t) : F env R a (.cls args t) :=
+theorem F.clsR (a : Ty) (args : Tys) (t : Ty) (hn : isName a = false) (hc : ∀ args' t', a ≠ .cls args' t') (h : R a t) :
+    F env R a (.cls args t) :=
   Or.inr (Or.inr (Or.inr (Or.inr (Or.inr (Or.inr (Or.inr (Or.inr (Or.inr (Or.inr (Or.inr (Or.inr (Or.inr
-    (Or.inr ⟨args, t, rfl, hn, h⟩)))))))))))))
+    (Or.inr ⟨args, t, rfl, hn, hc, h⟩)))))))))))))
 end
 
 /-! ### derivations from a set of assumed pairs -/
@@ -393,7 +394,7 @@ theorem subAlg_sound (env : Env) (hse : SafeEnv env) : ∀ (n : Nat) (g g' : Gam
                   split at hfx
                   · rename_i hopt
                     simp only [Res.yes.injEq] at hfx; subst hfx
-                    exact ⟨MJ.refl env g0, by simp only [heq]; exact optLike_of_trace env n x.2 t' htr hopt⟩
+                    exact ⟨MJ.refl env g0, by simp only [heq]; unfold optLike; rw [htr]; exact hopt⟩
                   · simp at hfx)
             h
           obtain ⟨mj, hall⟩ := hspec
@@ -522,7 +523,8 @@ theorem subAlg_sound (env : Env) (hse : SafeEnv env) : ∀ (n : Nat) (g g' : Gam
         case h_14 =>
           simp only [safeTy, Bool.and_eq_true] at hb
           obtain ⟨mj, k, hk⟩ := ih _ _ _ _ ha hb.2 h
-          exact Ok.of_F mj k (F.clsR _ _ _ hna hk)
+          rename_i hncls _
+          exact Ok.of_F mj k (F.clsR _ _ _ hna (fun args' t' hc => hncls args' t' hc) hk)
         all_goals simp at h
 
 
